@@ -19,6 +19,7 @@ def parseOp (j : J) : Except String Op := do
     let rx ← if r = "data" then pure Rx.data else if r = "eof" then pure Rx.eof else if r = "error" then pure Rx.error
              else throw s!"unknown rx {r}"
     pure (.pumpRW rx (← parseOutcome j))
+  else if k = "shutdown" then pure .shutdown
   else throw s!"unknown op {k}"
 
 def parseAct (j : J) : Except String Act := do
@@ -41,7 +42,8 @@ def handle (j : J) : Except String J := do
     let s := runWith guard ops
     pure (J.mk [("accepted", J.ofBytes s.accepted), ("send_buf", J.ofBytes s.sendBuf), ("closed", J.bool s.closed),
                 ("close_events", J.ofNat s.closeEvents), ("offered", J.ofNat s.offered),
-                ("offered_after_fatal", J.ofNat s.offeredAfterClose)])
+                ("offered_after_fatal", J.ofNat s.offeredAfterClose),
+                ("shut_wr", J.arr (s.shutLog.map fun e => J.ofNats [e.1.length, e.2.length]))])
   else
     let acts ← (← j.array "acts").mapM parseAct
     let s := crun { pb := (← j.nat "pb") } acts
